@@ -383,7 +383,15 @@ func cmdFonts() {
 			}(gi, progs[gi], delays)
 		}
 		close(start)
-		wg.Wait()
+		if !waitOrHang(&wg, time.Duration(h.ArgInt("--watchdog", 90))*time.Second) {
+			w.Close()
+			var ps []string
+			for _, p := range progs {
+				ps = append(ps, strings.Join(p.ops, ","))
+			}
+			h.Summary(map[string]any{"hang": true, "round": r, "first_round": firstRound, "programs": ps, "stacks": blockedStacks("pdfcpu/pkg/font."), "procs": runtime.GOMAXPROCS(0)})
+			os.Exit(0)
+		}
 		hr := histRec{H: base + r + 1, Procs: runtime.GOMAXPROCS(0), Gens: gens, Init: ini, Names: names}
 		for _, rs := range recs {
 			hr.Ops = append(hr.Ops, rs...)
@@ -898,7 +906,15 @@ func cmdOps() {
 			}(i)
 		}
 		close(start)
-		wg.Wait()
+		if !waitOrHang(&wg, time.Duration(h.ArgInt("--watchdog", 600))*time.Second) {
+			out.Close()
+			var ts []string
+			for _, t := range tasks {
+				ts = append(ts, t.op+":"+t.in.name)
+			}
+			h.Summary(map[string]any{"hang": true, "round": round, "programs": ts, "stacks": blockedStacks("github.com/pdfcpu/pdfcpu/"), "procs": runtime.GOMAXPROCS(0)})
+			os.Exit(0)
+		}
 		for _, r := range res {
 			out.Put(r)
 			total++
@@ -919,7 +935,7 @@ func cmdOps() {
 	}
 	for _, op := range []string{"merge", "rmpages", "optimize", "read", "validate", "split", "encrypt"} {
 		for ii := range w.inputs {
-			if applicable(op, ii) && !seen[pair{op, ii}] {
+			if h.Arg("--post") == "full" && applicable(op, ii) && !seen[pair{op, ii}] {
 				plan = append(plan, pair{op, ii})
 			}
 		}
@@ -973,6 +989,47 @@ type lifeRes struct {
 	Stacks  string     `json:"stacks"`
 }
 
+// blockedStacks: one line per goroutine whose stack contains the marker: header + the first functions of the stack.
+func blockedStacks(marker string) string {
+	buf := make([]byte, 1<<20)
+	buf = buf[:runtime.Stack(buf, true)]
+	var keep []string
+	for _, g := range strings.Split(string(buf), "\n\n") {
+		if strings.Contains(g, marker) {
+			ls := strings.Split(g, "\n")
+			var fn []string
+			for _, l := range ls {
+				if !strings.HasPrefix(l, "\t") && !strings.HasPrefix(l, "goroutine ") && !strings.HasPrefix(l, "created by") {
+					if k := strings.LastIndex(l, "("); k > 0 {
+						l = l[:k]
+					}
+					fn = append(fn, l)
+				}
+			}
+			if len(fn) > 8 {
+				fn = fn[:8]
+			}
+			keep = append(keep, ls[0]+" "+strings.Join(fn, " < "))
+		}
+	}
+	if len(keep) > 12 {
+		keep = keep[:12]
+	}
+	return strings.Join(keep, " || ")
+}
+
+// waitOrHang waits for wg; false when the watchdog expires first.
+func waitOrHang(wg *sync.WaitGroup, d time.Duration) bool {
+	ch := make(chan struct{})
+	go func() { wg.Wait(); close(ch) }()
+	select {
+	case <-ch:
+		return true
+	case <-time.After(d):
+		return false
+	}
+}
+
 func cmdLife() {
 	work, stage, out := h.Arg("--work"), h.Arg("--stage"), h.Arg("--out")
 	watchdog := time.Duration(h.ArgInt("--watchdog", 20)) * time.Second
@@ -1011,11 +1068,13 @@ func cmdLife() {
 		tmp := filepath.Join(work, "font1.tmp")
 		must(os.Link(filepath.Join(stage, fontName(1)+".gob"), tmp), "link font")
 		must(os.Rename(tmp, fifo), "rename over fifo")
-		if wfd != nil {
-			go feed(wfd)
-		}
-		// a scan that resolved the name to the pipe just before the rename is served as well
+		// one feeder (never two writers at a time); a scan that resolved the name to the pipe just before the rename is
+		// served as well
+		held := wfd
 		go func() {
+			if held != nil {
+				feed(held)
+			}
 			for {
 				if f, err := os.OpenFile(gate, os.O_WRONLY|syscall.O_NONBLOCK, 0); err == nil {
 					feed(f)
@@ -1109,25 +1168,7 @@ wait:
 		res.Calls[i].BeforeOpen = bo
 	}
 	if res.Hang {
-		buf := make([]byte, 1<<18)
-		buf = buf[:runtime.Stack(buf, true)]
-		var keep []string
-		for _, g := range strings.Split(string(buf), "\n\n") {
-			if strings.Contains(g, "pdfcpu/pkg/font.") {
-				ls := strings.Split(g, "\n")
-				var fn []string
-				for _, l := range ls {
-					if !strings.HasPrefix(l, "\t") && !strings.HasPrefix(l, "goroutine ") && !strings.HasPrefix(l, "created by") {
-						fn = append(fn, strings.SplitN(l, "(", 2)[0])
-					}
-				}
-				if len(fn) > 8 {
-					fn = fn[:8]
-				}
-				keep = append(keep, ls[0]+" "+strings.Join(fn, " < "))
-			}
-		}
-		res.Stacks = strings.Join(keep, " || ")
+		res.Stacks = blockedStacks("pdfcpu/pkg/font.")
 	}
 	w := h.NewW(out)
 	w.Put(res)
